@@ -282,7 +282,7 @@ class Monitor:
         import types
 
         ev = sys.monitoring.events
-        mask = ev.LINE | ev.PY_START | ev.PY_RETURN  # (PY_UNWIND is not a local event: corpus functions do not raise)
+        mask = ev.LINE | ev.PY_START | ev.PY_RETURN  # (PY_UNWIND is not a local event: a frame left by an exception has no "ret" event)
         if instructions:
             mask |= ev.INSTRUCTION
             self.instr_codes.add(id(code))
